@@ -582,6 +582,8 @@ where
         output.on_conn_error(error);
         input.on_conn_error(error);
         listener.on_conn_error(error);
+        // tasks blocked in `open_bi`/`open_uni` on the stream-id limit must re-poll and see the error
+        self.stream_ids.local.wake_all();
     }
 }
 
